@@ -1,14 +1,17 @@
 package main
 
 import (
+	"database/sql"
 	"encoding/json"
 	"errors"
 	"io"
 	"math/rand"
+	"os"
 	"sort"
 	"time"
 
 	"github.com/wrgl/wrgl/pkg/ref"
+	reffs "github.com/wrgl/wrgl/pkg/ref/fs"
 )
 
 func init() {
@@ -17,7 +20,15 @@ func init() {
 }
 
 type c15Input struct {
-	Ops [][]interface{} `json:"ops"`
+	Ops   [][]interface{} `json:"ops"`
+	Store string          `json:"store,omitempty"` // "" / "sql": pkg/ref/sql; "fs": pkg/ref/fs (names are files below a root directory)
+}
+
+// names for the file store: no name is a directory prefix of another
+var c15FsNames = []string{
+	"remotes/my_repo/x", "remotes/myXrepo/x", "remotes/MY_REPO/x", "remotes/my_repo/y/z", "remotes/my%repo/x",
+	"heads/a", "heads/b/c", "heads/ab", "heads/A", "heads/%", "heads/_", "tags/a", "remotes/o/main", "remotes/origin/main", "txs/1/a",
+	"heads/feature/beta_1", "remotes/Origin_2/main",
 }
 
 var c15Names = []string{
@@ -48,8 +59,21 @@ func strs(l interface{}) []string {
 
 func c15Run(in *c15Input) Res {
 	return Guard(func() Res {
-		rs, closeRS := NewRefStore()
-		defer closeRS()
+		var rs ref.Store
+		var sqlDB *sql.DB
+		if in.Store == "fs" {
+			dir, err := os.MkdirTemp(privateTmp(), "reffs-")
+			if err != nil {
+				return Err("tmpdir")
+			}
+			defer os.RemoveAll(dir)
+			rs = reffs.NewStore(dir)
+		} else {
+			s, db, closeRS := NewRefStoreDB()
+			defer closeRS()
+			rs = s
+			sqlDB = db
+		}
 		out := []interface{}{}
 		okErr := func(err error) {
 			if err != nil {
@@ -81,6 +105,19 @@ func c15Run(in *c15Input) Res {
 				okErr(rs.Set(s(1), unhx(s(2))))
 			case "setlog":
 				okErr(rs.SetWithLog(s(1), unhx(s(2)), &ref.Reflog{NewOID: unhx(s(2)), AuthorName: "a", AuthorEmail: "e", Time: time.Unix(1700000000, 0), Action: "act", Message: s(3)}))
+			case "setlogfail":
+				// the reflog insert fails (trigger): ref and log are one SQL transaction, nothing may change
+				if sqlDB == nil {
+					out = append(out, "err")
+					break
+				}
+				if _, err := sqlDB.Exec("CREATE TRIGGER verif_fail_log BEFORE INSERT ON reflogs BEGIN SELECT RAISE(ABORT, 'injected'); END"); err != nil {
+					return Err("trigger")
+				}
+				okErr(rs.SetWithLog(s(1), unhx(s(2)), &ref.Reflog{NewOID: unhx(s(2)), AuthorName: "a", AuthorEmail: "e", Time: time.Unix(1700000000, 0), Action: "act", Message: s(3)}))
+				if _, err := sqlDB.Exec("DROP TRIGGER verif_fail_log"); err != nil {
+					return Err("trigger-drop")
+				}
 			case "get":
 				v, err := rs.Get(s(1))
 				if err != nil {
@@ -168,6 +205,39 @@ func genC15(r *rand.Rand, thorough bool) *c15Input {
 		n = 5 + r.Intn(60)
 	}
 	in := &c15Input{}
+	if os.Getenv("VERIF_C15_FS") == "1" && r.Intn(5) == 0 {
+		// the legacy file store (pkg/ref/fs): not generated by default. It is reachable from no command
+		// (only a migration test builds a repository with it) and differs from the map-with-logs
+		// model by design: reflog entries carry no old value, rename overwrites an existing name,
+		// prefix filters walk directories and ignore all but the first prefix. See DESIGN.md §0.7.
+		in.Store = "fs"
+		nm := func() string { return c15FsNames[r.Intn(len(c15FsNames))] }
+		for i := 0; i < n; i++ {
+			var op []interface{}
+			switch x := r.Intn(14); {
+			case x < 2:
+				op = []interface{}{"set", nm(), c15Sum(r)}
+			case x < 7:
+				op = []interface{}{"setlog", nm(), c15Sum(r), "m" + itoa(i)}
+			case x < 9:
+				op = []interface{}{"get", nm()}
+			case x < 10:
+				op = []interface{}{"del", nm()}
+			case x < 12:
+				op = []interface{}{"rename", nm(), nm()}
+			case x < 13:
+				op = []interface{}{"copy", nm(), nm()}
+			default:
+				op = []interface{}{"log", nm()}
+			}
+			in.Ops = append(in.Ops, op)
+		}
+		in.Ops = append(in.Ops, []interface{}{"filter", []string{}, []string{}})
+		for _, x := range c15FsNames {
+			in.Ops = append(in.Ops, []interface{}{"log", x})
+		}
+		return in
+	}
 	name := func() string { return c15Names[r.Intn(len(c15Names))] }
 	pfxs := func() []string {
 		k := r.Intn(3)
@@ -184,6 +254,9 @@ func genC15(r *rand.Rand, thorough bool) *c15Input {
 			op = []interface{}{"set", name(), c15Sum(r)}
 		case x < 8:
 			op = []interface{}{"setlog", name(), c15Sum(r), "m" + itoa(i)}
+			if r.Intn(8) == 0 {
+				op[0] = "setlogfail"
+			}
 		case x < 10:
 			op = []interface{}{"get", name()}
 		case x < 11:
